@@ -79,7 +79,11 @@ func (c *collector) Violation(sig, what string, witness any) {
 	}
 	c.mu.Unlock()
 }
-func (c *collector) Inconclusive(why string) { c.mu.Lock(); c.Incon = append(c.Incon, why); c.mu.Unlock() }
+func (c *collector) Inconclusive(why string) {
+	c.mu.Lock()
+	c.Incon = append(c.Incon, why)
+	c.mu.Unlock()
+}
 func (c *collector) Sample(s any) {
 	c.mu.Lock()
 	if len(c.Samples) < 3 {
